@@ -354,9 +354,21 @@ def _inline_into(h: _Helper, caller) -> int:
         if prep is None:
             return None
         pro, sub, rename = prep
+        # `X = h(..)` where h ends with `return L` (L a local of h): L simply becomes X
+        last = h.body[-1] if h.body else None
+        if kind == "assign" and len(st.targets) == 1 and isinstance(st.targets[0], ast.Name) and isinstance(last, ast.Return) and isinstance(last.value, ast.Name) \
+                and last.value.id in h.locals:
+            X, L = st.targets[0].id, last.value.id
+            helper_names = {n.id for n in ast.walk(h.node) if isinstance(n, ast.Name)} | set(h.params)
+            if not any(isinstance(n, ast.Name) and n.id == X for a in list(call.args) + [k.value for k in call.keywords] for n in ast.walk(a)) and (X == L or X not in helper_names) \
+                    and X not in rename.values():
+                rename = dict(rename)
+                rename[L] = X
         body = [_Sub(sub, rename).visit(copy.deepcopy(s)) for s in h.body]
 
         def make(val):
+            if kind == "assign" and len(st.targets) == 1 and isinstance(st.targets[0], ast.Name) and isinstance(val, ast.Name) and val.id == st.targets[0].id:
+                return []
             if kind == "return":
                 return [ast.Return(value=val)]
             if kind == "expr":
